@@ -3,8 +3,14 @@
     back, what apply_context returns) of running the operation tree [t] from context [c].
     [leaves t] lists the tree's send/apply leaves with the path of operations leading to each;
     [active lk tr path] are the transforms active at the end of a path (innermost first) and
-    the lock flag, defined on the path alone. Contexts are modelled as values: see Ctx.v. *)
-From Tephra Require Import Ctx CtxFacts.
+    the lock flag, defined on the path alone. Contexts are modelled as values: see Ctx.v.
+    THAT CONTEXTS ARE VALUES is itself a theorem about a model of context.rs as it is (HCtx.v: shared
+    sink cell, local transform cell with parent pointer, lock flag, clones aliasing the cells, the WHOLE
+    public API as a register machine that the harness runs against the real Context): on every
+    history that does not use take/replace_error_sink or take/replace_local_context the heap machine
+    and the value machine produce the same events ([C15_contexts_are_values]); and what those four do
+    that a value could not is stated too ([C15_take_sink_is_shared]). *)
+From Tephra Require Import Base Ctx CtxFacts HCtx.
 
 (** every tree: its events are exactly those of its leaves, in order, each raised in the
     context determined by its own path only (siblings and clones do not interfere) *)
@@ -51,3 +57,32 @@ Theorem C15_example :
   /\ active false [] [SPush 1; SRaw; SPush 2] = ([], true).
 Proof. exact active_example. Qed.
 Print Assumptions C15_example.
+
+(** the heap model of context.rs refines to values: no operation other than the four cell-mutating ones
+    can be observed through another context *)
+Theorem C15_contexts_are_values :
+  forall ops, Forall (fun o => pure_op o = true) ops -> hrun hinit ops = vrun vinit ops.
+Proof. exact contexts_are_values. Qed.
+Print Assumptions C15_contexts_are_values.
+
+(** in the heap model too, transforms are applied own-first then the parents', each once *)
+Theorem C15_heap_apply_is_trail :
+  forall fuel h l e, h_apply fuel h l e = apply_trail (h_trail fuel h l) e.
+Proof. exact h_apply_trail. Qed.
+Print Assumptions C15_heap_apply_is_trail.
+
+(** taking the sink through one context removes it for every context that shares the cell *)
+Theorem C15_take_sink_is_shared :
+  forall s i k j, hs (reg s j) = hs (reg s i) -> hs (reg s i) < length (h_sh (st_heap s)) ->
+  let s' := fst (hstep s (HTakeSink i k)) in
+  v_sink (abs (st_heap s') (reg s' j)) = None /\ st_ks s' k = nth (hs (reg s i)) (h_sh (st_heap s)) None.
+Proof. exact take_sink_is_shared. Qed.
+Print Assumptions C15_take_sink_is_shared.
+
+(** concrete: c1 = c0.pushed(5); c2 = c1.pushed(6); take the sink through c0: c2 has lost it; put it back
+    through c1: c2 delivers again, with both transforms, inner first *)
+Example C15_heap_example :
+  hrun hinit [HNew 0 (Some 0); HPushed 0 1 5; HPushed 1 2 6; HSend 2 1; HTakeSink 0 0; HSend 2 2; HReplSink 1 0; HSend 2 3]
+  = [HvSink 1 0 (ETagged 5 (ETagged 6 (EProbe 1))); HvRet 2 (EProbe 2); HvSink 3 0 (ETagged 5 (ETagged 6 (EProbe 3)))].
+Proof. vm_compute. reflexivity. Qed.
+Print Assumptions C15_heap_example.
